@@ -186,3 +186,11 @@ func (c *vfakeSeqClient) GetFailOverLogs(vbID uint16) ([]gocbcore.FailoverEntry,
 }
 
 func vLatestInit(cfg *config.Dcp) *offset.OffsetLatestSeqNoInit { return offset.NewOffsetLatestSeqNoInit(cfg) }
+
+func newOffsetsMap() *wrapper.ConcurrentSwissMap[uint16, *models.Offset] {
+	return wrapper.CreateConcurrentSwissMap[uint16, *models.Offset](1024)
+}
+
+func newDirtyMap() *wrapper.ConcurrentSwissMap[uint16, bool] {
+	return wrapper.CreateConcurrentSwissMap[uint16, bool](1024)
+}
